@@ -246,11 +246,15 @@ class Typed:
             self.extract_s = time.time() - t0
             # keep the cache small: drop older entries
             olds = sorted(CACHE.glob("typed-*.json"), key=lambda p: p.stat().st_mtime)
-            for p in olds[:-6]:
+            for p in olds[:-16]:
                 try:
                     p.unlink()
                 except OSError:
                     pass
+        try:
+            os.utime(f)
+        except OSError:
+            pass
         data = json.load(open(f))
         self.mods: dict[str, dict] = data["modules"]
         self.classes: dict[str, dict] = data["classes"]
